@@ -234,3 +234,6 @@ func VerifProphetOf(a Algorithm) *Prophet {
 	p, _ := VerifUnwrap(a).(*Prophet)
 	return p
 }
+
+// VerifPurge runs the registered purge task.
+func (dtlsr *DTLSR) VerifPurge() { dtlsr.purgePeers() }
